@@ -486,9 +486,8 @@ Proof.
     { intros c -> _. split; [|eapply InvT_ext; [..|exact HT]; reflexivity].
       destruct HC as [C1 C2 C3 C4]. constructor; unfold defs_of, uses_of in *; cbn [next_cid mapping frames tables]; try assumption.
       intros x Hx. unfold mapping_cids in Hx. cbn [flat_map snd target_cids] in Hx. fold (mapping_cids (mapping s)) in Hx.
-      rewrite cnt_app in Hx. apply C3.
-      destruct (cnt (mapping_cids (mapping s)) x) eqn:E; [|nlia].
-      apply (guard_cnt s _ G). cbn [expr_cids]. rewrite cnt_app. cbn [app] in Hx. nlia. }
+      rewrite cnt_app in Hx. pose proof (guard_cnt s _ G x) as Hg. cbn [expr_cids] in Hg. rewrite cnt_app in Hg.
+      apply C3. nlia. }
     assert (forall fs, push_top (TCompute (next_cid s) e w agg) (frames s) = Some fs ->
               Inv (mkL (next_cid s + 1) (next_tid s) ((node, MCompute (next_cid s)) :: mapping s) fs (tables s))) as Hnew.
     { intros fs P.
@@ -500,7 +499,7 @@ Proof.
         - intros x Hx. rewrite cnt_single in Hx. destruct (N.eq_dec (next_cid s) x) as [<-|]; [nlia|].
           specialize (C2 x). rewrite cnt_nil in C2. nlia.
         - intros x Hx. unfold mapping_cids in Hx. cbn [flat_map snd target_cids] in Hx. fold (mapping_cids (mapping s)) in Hx.
-          rewrite cnt_app in Hx. rewrite (cnt_single (next_cid s) x) in *. specialize (C3 x). rewrite cnt_nil in C3.
+          rewrite cnt_app in Hx. unfold cid in *. rewrite !cnt_single in *. specialize (C3 x). rewrite cnt_nil in C3.
           destruct (N.eq_dec (next_cid s) x); nlia.
         - intros x Hx. specialize (C4 x Hx). rewrite cnt_nil in C4. nlia. }
       assert (InvT s1) as HT1 by (eapply InvT_ext; [..|exact HT]; reflexivity).
@@ -511,8 +510,9 @@ Proof.
         fold (mapping_cids (mapping s)). rewrite cnt_app. cbn [transform_uses] in Hx.
         pose proof (guard_cnt s _ G x Hx). nlia.
       - intros ? []. }
-    destruct e; destruct plain_ok;
-      try (destruct (push_top _ (frames s)) as [fs|] eqn:P; [|discriminate]; injection H as <-; apply Hnew; exact P).
+    destruct e; destruct plain_ok; cbv beta iota in H;
+      try (revert H; match goal with |- context [push_top ?t ?f] => destruct (push_top t f) as [fs|] eqn:P end;
+           intro H; [|discriminate]; injection H as <-; apply Hnew; first [exact P | reflexivity]).
     injection H as <-. apply (Halias c); reflexivity.
   - (* OPush *)
     destruct (simple t && guard s (transform_uses t)) eqn:G; [|discriminate].
@@ -553,15 +553,15 @@ Proof.
       destruct (cnt (tids_of s) (next_tid s)) eqn:E; [nlia|]. specialize (T2 (next_tid s)). nlia.
     + intros y Hy. rewrite Et, cnt_single in Hy. destruct (N.eq_dec (next_tid s) y) as [<-|]; [nlia|].
       specialize (T2 y). nlia.
-    + cbn [tables]. apply ordered_snoc; [exact T3|]. rewrite Ert. apply (T4 (FTable, p)). left; reflexivity.
+    + cbn [tables]. apply ordered_snoc; [exact T3|]. rewrite Ert. apply (T4 (FTable, p)). rewrite Ef. left; reflexivity.
     + cbn [frames tables]. intros f Hf y Hy. rewrite ids_snoc. apply in_or_app. left.
-      eapply (T4 f); [right; exact Hf | exact Hy].
+      eapply (T4 f); [rewrite Ef; right; exact Hf | exact Hy].
     + cbn [tables]. intros t' Ht'. apply in_app_or in Ht' as [Ht'|[<-|[]]]; [apply T5; exact Ht'|].
       intros p0 E0. cbn in E0. injection E0 as <-.
-      destruct (T6 (FTable, p)) as [r0 [p' Ep]]; [left; reflexivity | discriminate |]. cbn [snd] in Ep. subst p.
+      destruct (T6 (FTable, p)) as [r0 [p' Ep]]; [rewrite Ef; left; reflexivity | discriminate |]. cbn [snd] in Ep. subst p.
       split; [exists r0, (p' ++ [TSelect (map snd frame)]); reflexivity|].
-      exists (TFrom r0 :: p'), (map snd frame). split; [reflexivity|]. cbn [r_columns select_relation]. rewrite !map_length. reflexivity.
-    + cbn [frames]. intros f Hf. apply T6. right; exact Hf.
+      exists (TFrom r0 :: p'), (map snd frame). split; [reflexivity|]. unfold nt. cbn [t_relation r_columns select_relation]. rewrite !map_length. reflexivity.
+    + cbn [frames]. intros f Hf. apply T6. rewrite Ef. right; exact Hf.
   - (* OEndInline *)
     destruct (frames s) as [|[[|t|] p] fs] eqn:Ef; try discriminate.
     destruct (guard s (map snd frame)) eqn:G; [|discriminate].
@@ -580,8 +580,8 @@ Proof.
       assert (forall x, cnt (uses_of s1) x = (cnt (uses_of s) x + cnt (map snd frame) x)%nat) as Eu.
       { intro x. unfold uses_of, s1. cbn [tables frames]. rewrite Ef, Tuses_snoc, Eru, Fuses_cons, !cnt_app. nlia. }
       assert (forall y, cnt (tids_of s1) y = cnt (tids_of s) y) as Et.
-      { intro y. unfold tids_of, s1. cbn [tables frames]. rewrite Ef, ids_snoc. cbn [reserved flat_map fst app t_id nt].
-        fold (reserved fs). rewrite !cnt_app. nlia. }
+      { intro y. unfold tids_of, s1. cbn [tables frames]. rewrite Ef, ids_snoc, reserved_cons. unfold nt. cbn [t_id].
+        rewrite !cnt_app. nlia. }
       split; constructor; cbn [s1 next_cid next_tid mapping].
       + intro x. fold s1. rewrite Ed. exact (C1 x).
       + intros x Hx. fold s1 in Hx. rewrite Ed in Hx. exact (C2 x Hx).
@@ -591,15 +591,15 @@ Proof.
         * specialize (C4 x). rewrite cnt_nil in C4. nlia.
       + intro y. fold s1. rewrite Et. exact (T1 y).
       + intros y Hy. fold s1 in Hy. rewrite Et in Hy. exact (T2 y Hy).
-      + cbn [tables]. apply ordered_snoc; [exact T3|]. rewrite Ert. apply (T4 (FInline t, p)). left; reflexivity.
-      + cbn [frames tables]. intros f Hf y Hy. rewrite ids_snoc. apply in_or_app. left.
-        eapply (T4 f); [right; exact Hf | exact Hy].
-      + cbn [tables]. intros t' Ht'. apply in_app_or in Ht' as [Ht'|[<-|[]]]; [apply T5; exact Ht'|].
+      + cbn [s1 tables]. apply ordered_snoc; [exact T3|]. rewrite Ert. apply (T4 (FInline t, p)). rewrite Ef. left; reflexivity.
+      + cbn [s1 frames tables]. intros f Hf y Hy. rewrite ids_snoc. apply in_or_app. left.
+        eapply (T4 f); [rewrite Ef; right; exact Hf | exact Hy].
+      + cbn [s1 tables]. intros t' Ht'. apply in_app_or in Ht' as [Ht'|[<-|[]]]; [apply T5; exact Ht'|].
         intros p0 E0. cbn in E0. injection E0 as <-.
-        destruct (T6 (FInline t, p)) as [r0 [p' Ep]]; [left; reflexivity | discriminate |]. cbn [snd] in Ep. subst p.
+        destruct (T6 (FInline t, p)) as [r0 [p' Ep]]; [rewrite Ef; left; reflexivity | discriminate |]. cbn [snd] in Ep. subst p.
         split; [exists r0, (p' ++ [TSelect (map snd frame)]); reflexivity|].
-        exists (TFrom r0 :: p'), (map snd frame). split; [reflexivity|]. cbn [r_columns select_relation]. rewrite !map_length. reflexivity.
-      + cbn [frames]. intros f Hf. apply T6. right; exact Hf. }
+        exists (TFrom r0 :: p'), (map snd frame). split; [reflexivity|]. unfold nt. cbn [t_relation r_columns select_relation]. rewrite !map_length. reflexivity.
+      + cbn [s1 frames]. intros f Hf. apply T6. rewrite Ef. right; exact Hf. }
     fold s1. destruct (mk_instance s1 node None t (map fst frame)) as [r s2] eqn:M.
     destruct (mk_instance_inv _ _ _ _ _ _ _ HC1 M) as [HC2 [Hsrc [Et [Ef2 En]]]].
     set (rs := combine (map snd frame) (tref_cids r)).
@@ -608,6 +608,7 @@ Proof.
     destruct (apply_use s3 r u) as [tr|] eqn:U; [|discriminate].
     destruct (push_top tr (frames s3)) as [fs'|] eqn:P; [|discriminate].
     intro H; injection H as <-.
+    change (Inv (mkL (next_cid s3) (next_tid s3) (mapping s3) fs' (tables s3))).
     eapply use_push_inv; try eassumption.
     + eapply InvT_ext; [..|exact HT1]; assumption.
     + cbn [s3 tables]. rewrite Hsrc, Et. unfold s1. cbn [tables]. rewrite ids_snoc. apply in_or_app. right. left. reflexivity.
@@ -647,3 +648,175 @@ Proof.
   - intro H; injection H as <-. exact Hi.
   - destruct (step s o) as [s1|] eqn:E; [|discriminate]. intro H. eapply IH; [|exact H]. eapply step_inv; eassumption.
 Qed.
+
+(* ------------------------------------------------------------------ what a finished run hands to the back end *)
+
+Record rq_closed (q : rq) : Prop := {
+  cl_nodup : NoDup (all_defs q);
+  cl_uses : incl (used_cids q) (all_defs q);
+  cl_tnodup : NoDup (table_ids q);
+  cl_order : forall k t, nth_error (q_tables q) k = Some t ->
+             incl (relation_trefs (t_relation t)) (firstn k (table_ids q));
+  cl_main : incl (relation_trefs (q_relation q)) (table_ids q);
+  cl_shape : pipeline_shape (q_relation q) /\ forall t, In t (q_tables q) -> pipeline_shape (t_relation t) }.
+
+Lemma firstn_app_le {A} (l1 l2 : list A) k : (k <= length l1)%nat -> firstn k (l1 ++ l2) = firstn k l1.
+Proof.
+  intro H. rewrite firstn_app. replace (k - length l1)%nat with 0%nat by lia. cbn [firstn]. apply app_nil_r.
+Qed.
+
+Lemma finish_closed s q : Inv s -> finish s = Some q -> rq_closed q.
+Proof.
+  intros [[C1 C2 C3 C4] [T1 T2 T3 T4 T5 T6]]. unfold finish.
+  destruct (frames s) as [|f fs] eqn:Ef; [|discriminate].
+  destruct (rev (tables s)) as [|main rest] eqn:Er; [discriminate|].
+  intro H; injection H as <-.
+  assert (tables s = rev rest ++ [main]) as Et.
+  { rewrite <- (rev_involutive (tables s)), Er. reflexivity. }
+  unfold defs_of, uses_of, tids_of in *. rewrite Ef, Et in *.
+  cbn [Fdefs Fuses reserved flat_map] in *. rewrite !app_nil_r in *. rewrite Tdefs_snoc in *. rewrite Tuses_snoc in *.
+  constructor; unfold all_defs, used_cids, table_ids; cbn [q_tables q_relation].
+  - apply cnt_NoDup. intro x. specialize (C1 x). rewrite cnt_nil in C1. unfold Tdefs in C1. nlia.
+  - apply cnt_incl. intros x Hx. specialize (C4 x Hx). rewrite cnt_nil in C4. unfold Tdefs in C4. nlia.
+  - apply cnt_NoDup. intro x. specialize (T1 x). rewrite ids_snoc, cnt_app in T1. nlia.
+  - intros k t Hk. pose proof (nth_error_Some (rev rest) k) as [Hlt _].
+    assert (k < length (rev rest))%nat as Hk' by (apply Hlt; congruence).
+    specialize (T3 k t). rewrite nth_error_app1 in T3 by exact Hk'. specialize (T3 Hk).
+    rewrite ids_snoc, firstn_app_le in T3 by (rewrite map_length; lia). exact T3.
+  - specialize (T3 (length (rev rest)) main). rewrite nth_error_app2, Nat.sub_diag in T3 by lia.
+    specialize (T3 eq_refl). rewrite ids_snoc in T3.
+    rewrite <- (map_length t_id (rev rest)), firstn_app_le, firstn_all in T3 by lia. exact T3.
+  - split; [apply T5; apply in_or_app; right; left; reflexivity|].
+    intros t Ht. apply T5. apply in_or_app. left; exact Ht.
+Qed.
+
+Lemma firstn_In {A} (l : list A) k x : In x (firstn k l) -> In x l.
+Proof. intro H. rewrite <- (firstn_skipn k l). apply in_or_app. left. exact H. Qed.
+
+Lemma closed_lookups_total q : rq_closed q -> lookups_total q.
+Proof.
+  intros [H1 H2 H3 H4 H5 H6]. constructor.
+  - intros c Hc. unfold lookup_cid. apply H2 in Hc. rewrite <- all_decls_fst in Hc. apply find_fst_some in Hc.
+    destruct (find _ _); [discriminate | contradiction].
+  - intros t Ht. apply lookup_tid_some. unfold used_tids in Ht. apply in_app_or in Ht as [Ht|Ht]; [|apply H5; exact Ht].
+    apply in_flat_map in Ht as [d [Hd Ht]]. apply In_nth_error in Hd as [k Hk].
+    apply (H4 k d Hk) in Ht. eapply firstn_In. exact Ht.
+  - intros c d Hin. unfold lookup_cid. rewrite (find_fst_unique _ c d); [reflexivity | rewrite all_decls_fst; exact H1 | exact Hin].
+  - exact H3.
+Qed.
+
+Lemma wf_lax_closed q : rq_wf_lax q = true -> rq_closed q.
+Proof.
+  intro H. pose proof (wf_lax_lookups_total q H) as L. pose proof (wf_lax_pipeline_shape q H) as S.
+  pose proof (wf_lax_decl_before_use q H) as O. pose proof (wf_lax_defs_nodup q H) as N.
+  unfold rq_wf_lax, rq_diags in H. rewrite !forallb_app in H. apply andb_true_iff in H as [_ H]. apply andb_true_iff in H as [_ H].
+  apply andb_true_iff in H as [H3 H4].
+  assert (incl (flat_map (fun t => relation_defs (t_relation t)) (q_tables q)) (all_defs q)) as Hd1
+    by (unfold all_defs; apply incl_appl, incl_refl).
+  assert (incl (relation_defs (q_relation q)) (all_defs q)) as Hd2
+    by (unfold all_defs; apply incl_appr, incl_refl).
+  destruct (tables_ok _ _ _ _ Hd1 H3) as [Hu Ht].
+  destruct (relation_ok _ _ _ _ Hd2 H4) as [Hu' Ht'].
+  constructor; try assumption.
+  - unfold used_cids. apply incl_app; assumption.
+  - exact (lt_nodup_tid _ L).
+Qed.
+
+(* ------------------------------------------------------------------ the statements, for every operation sequence *)
+
+Theorem lowerer_ids_fresh ops s : run init ops = Some s ->
+  NoDup (defs_of s) /\ (forall c, In c (defs_of s) -> c < next_cid s)
+  /\ NoDup (tids_of s) /\ (forall t, In t (tids_of s) -> t < next_tid s).
+Proof.
+  intro H. destruct (run_inv ops init s Inv_init H) as [[C1 C2 C3 C4] [T1 T2 T3 T4 T5 T6]].
+  repeat split.
+  - apply cnt_NoDup. intro x. specialize (C1 x). rewrite cnt_nil in C1. nlia.
+  - intros c Hc. apply C2. apply cnt_In in Hc. nlia.
+  - apply cnt_NoDup. exact T1.
+  - intros t Ht. apply T2. apply cnt_In. exact Ht.
+Qed.
+
+Theorem lowerer_uses_defined ops s : run init ops = Some s ->
+  incl (mapping_cids (mapping s)) (defs_of s) /\ incl (uses_of s) (defs_of s).
+Proof.
+  intro H. destruct (run_inv ops init s Inv_init H) as [[C1 C2 C3 C4] _].
+  split; apply cnt_incl; intros x Hx; [specialize (C3 x Hx) | specialize (C4 x Hx)]; rewrite cnt_nil in *; nlia.
+Qed.
+
+Theorem lowerer_push_select_arity ops s : run init ops = Some s ->
+  forall t, In t (tables s) -> pipeline_shape (t_relation t).
+Proof. intro H. destruct (run_inv ops init s Inv_init H) as [_ HT]. exact (t_shape _ HT). Qed.
+
+Theorem lowerer_decl_before_use ops s : run init ops = Some s -> tables_ordered (tables s).
+Proof. intro H. destruct (run_inv ops init s Inv_init H) as [_ HT]. exact (t_order _ HT). Qed.
+
+Theorem lowerer_emits_closed ops s q : run init ops = Some s -> finish s = Some q -> rq_closed q /\ lookups_total q.
+Proof.
+  intros H F. pose proof (finish_closed s q (run_inv ops init s Inv_init H) F) as C.
+  split; [exact C | apply closed_lookups_total; exact C].
+Qed.
+
+(* ------------------------------------------------------------------ toposort: dependencies come first *)
+
+Section ToposortProofs.
+  Variable dag : nat -> list nat.
+
+  (* order is kept reversed: head = pushed last *)
+  Fixpoint closed (order : list nat) : Prop :=
+    match order with
+    | [] => True
+    | n :: rest => incl (dag n) rest /\ closed rest
+    end.
+
+  Lemma mem_nat_In n l : existsb (Nat.eqb n) l = true <-> In n l.
+  Proof.
+    rewrite existsb_exists. split.
+    - intros [y [H E]]. apply Nat.eqb_eq in E. subst. exact H.
+    - intro H. exists n. split; [exact H | apply Nat.eqb_refl].
+  Qed.
+
+  Lemma visit_spec fuel : forall visiting order n order',
+    closed order -> visit dag fuel visiting order n = Some order' ->
+    closed order' /\ In n order' /\ exists ext, order' = ext ++ order.
+  Proof.
+    induction fuel as [|fuel IH]; intros visiting order n order' Hc; cbn [visit]; [discriminate|].
+    destruct (existsb (Nat.eqb n) order) eqn:Ed.
+    - intro H; injection H as <-. apply mem_nat_In in Ed. repeat split; [exact Hc | exact Ed | exists []; reflexivity].
+    - destruct (existsb (Nat.eqb n) visiting); [discriminate|].
+      set (go := visit_all (visit dag fuel (n :: visiting))).
+      assert (forall ms o o', closed o -> go ms o = Some o' ->
+                closed o' /\ incl ms o' /\ exists ext, o' = ext ++ o) as Hgo.
+      { induction ms as [|m ms IHms]; intros o o' Ho; unfold go; cbn [visit_all]; fold go.
+        - intro H; injection H as <-. repeat split; [exact Ho | intros ? [] | exists []; reflexivity].
+        - destruct (visit dag fuel (n :: visiting) o m) as [o1|] eqn:V; [|discriminate].
+          destruct (IH _ _ _ _ Ho V) as [Hc1 [Hin1 [e1 E1]]].
+          intro G. destruct (IHms _ _ Hc1 G) as [Hc2 [Hin2 [e2 E2]]].
+          repeat split; [exact Hc2 | | exists (e2 ++ e1); subst; rewrite app_assoc; reflexivity].
+          intros x [<-|Hx]; [|apply Hin2; exact Hx]. subst o'. apply in_or_app. right. exact Hin1. }
+      destruct (go (dag n) order) as [o1|] eqn:G; [|discriminate].
+      intro H; injection H as <-. destruct (Hgo _ _ _ Hc G) as [Hc1 [Hin1 [e1 E1]]].
+      repeat split; [exact Hin1 | exact Hc1 | left; reflexivity | exists (n :: e1); subst; reflexivity].
+  Qed.
+
+  Lemma closed_split order : closed order -> forall l1 n l2, order = l1 ++ n :: l2 -> incl (dag n) l2.
+  Proof.
+    induction order as [|a order IH]; intros Hc l1 n l2 E; [destruct l1; discriminate|].
+    destruct Hc as [Ha Hc]. destruct l1 as [|b l1]; cbn in E; injection E as -> ->; [exact Ha|].
+    eapply IH; [exact Hc | reflexivity].
+  Qed.
+
+  Theorem toposort_spec fuel start l :
+    toposort dag fuel start = Some l ->
+    In start l /\ forall i n, nth_error l i = Some n -> incl (dag n) (firstn i l).
+  Proof.
+    unfold toposort. destruct (visit dag fuel [] [] start) as [o|] eqn:V; [|discriminate].
+    intro H; injection H as <-. destruct (visit_spec fuel [] [] start o I V) as [Hc [Hin _]].
+    split; [apply in_rev in Hin; exact Hin|].
+    intros i n Hi. pose proof (nth_error_split _ _ Hi) as [l1 [l2 [E Hl]]].
+    assert (o = rev l2 ++ n :: rev l1) as Eo.
+    { rewrite <- (rev_involutive o), E, rev_app_distr. cbn [rev]. rewrite <- app_assoc. reflexivity. }
+    pose proof (closed_split o Hc _ _ _ Eo) as Hd.
+    rewrite E. rewrite firstn_app_le by lia. subst i. rewrite firstn_all.
+    intros x Hx. apply Hd in Hx. apply in_rev in Hx. exact Hx.
+  Qed.
+End ToposortProofs.
